@@ -592,9 +592,10 @@ func (fx *FnExec) havocLoc(env *CEnv, old, st *State, x *CExpr) []func() {
 		if !ok || p.Kind != PObj {
 			env.fail("modifies %s: base is not an object pointer", exprString(x))
 		}
-		if strings.HasPrefix(x.Name, "$") {
-			key := "GF|" + typeKey(p.Elem) + "|" + x.Name
-			gt, ok := fx.eng.ghostTypes[typeKey(p.Elem)+"."+x.Name]
+		if strings.HasPrefix(x.Name, "gh_") {
+			gname := "$" + strings.TrimPrefix(x.Name, "gh_")
+			key := "GF|" + typeKey(p.Elem) + "|" + gname
+			gt, ok := fx.eng.ghostTypes[typeKey(p.Elem)+"."+gname]
 			if !ok {
 				env.fail("undeclared ghost field %s", x.Name)
 			}
